@@ -125,6 +125,15 @@ type Check struct {
 
 var registry = map[string]*Check{}
 
+// crashHint: a fault while the arguments were write-protected, raised on a goroutine the harness does not
+// own (an internal worker of the implementation), is a store into a caller-supplied input.
+func crashHint(unit, es string) string {
+	if unit == "write-protected arguments" && strings.Contains(es, "unexpected fault address") {
+		return "a goroutine started by the call stored into a caller-supplied input (write-protected argument memory): "
+	}
+	return ""
+}
+
 func Register(c *Check) { registry[c.ID] = c }
 
 func Lookup(id string) *Check { return registry[id] }
@@ -339,7 +348,7 @@ func MasterMain(c *Check, ctx *Ctx, verifDir string, unitFilter string) int {
 						// the worker process crashed inside the implementation (a panic in an unmanaged goroutine,
 						// a runtime-detected deadlock, a concurrent map write ...): a violation, not a tooling error
 						results[idx] = &Result{Unit: units[idx].Name, NViol: 1, Violations: []Violation{{Property: c.ID, Unit: units[idx].Name,
-							Check: strings.ToLower(c.ID) + ".crash", API: "see stack", Input: "unit " + units[idx].Name, Expected: "no crash", Got: clip(es, 3000)}}}
+							Check: strings.ToLower(c.ID) + ".crash", API: "see stack", Input: "unit " + units[idx].Name, Expected: "no crash", Got: crashHint(units[idx].Name, es) + clip(es, 3000)}}}
 						crashed = true
 						anyCrash = true
 					} else {
